@@ -71,6 +71,18 @@ impl AsyncOverlayFS {
             .join(format!(".whiteout/{}_wo", &path[1..]))
     }
 
+    async fn clear_whiteout(&self, path: &str) -> VfsResult<()> {
+        let whiteout_path = self.whiteout_path(path)?;
+        if whiteout_path.exists().await? {
+            match whiteout_path.remove_file().await {
+                // cleared concurrently by another creator of the same entry
+                Err(error) if matches!(error.kind(), VfsErrorKind::FileNotFound) => {}
+                other => other?,
+            }
+        }
+        Ok(())
+    }
+
     async fn ensure_has_parent(&self, path: &str) -> VfsResult<()> {
         let separator = path.rfind('/');
         if let Some(index) = separator {
@@ -130,12 +142,17 @@ impl AsyncFileSystem for AsyncOverlayFS {
             };
         }
         self.ensure_has_parent(path).await?;
-        self.write_path(path)?.create_dir().await?;
-        let whiteout_path = self.whiteout_path(path)?;
-        if whiteout_path.exists().await? {
-            whiteout_path.remove_file().await?;
+        let result = self.write_path(path)?.create_dir().await;
+        match &result {
+            Ok(()) => self.clear_whiteout(path).await?,
+            Err(error) if matches!(error.kind(), VfsErrorKind::DirectoryExists) => {
+                // created concurrently in the write layer, its whiteout may not be cleared yet:
+                // once this call has returned, the directory must be visible as a parent
+                self.clear_whiteout(path).await?
+            }
+            Err(_) => {}
         }
-        Ok(())
+        result
     }
 
     async fn open_file(&self, path: &str) -> VfsResult<Box<dyn SeekAndRead + Send + Unpin>> {
